@@ -265,7 +265,13 @@ def _execute(record, root):
         stats["solves"] += 1
         if e.get("exc"):
             stats["probes"]["solves_that_raised"] = stats["probes"].get("solves_that_raised", 0) + 1
-            if e["start"] != "fresh" and not any(o.get("exc") for o in out[:k] if o["start"] == "fresh"):
+            honest_giveup = bool(record.get("subspace_limit")) and "Maximum iterations reached" in str(e["exc"])
+            if honest_giveup:
+                # injected fault active (available memory restricted -> subspace of ~10 vectors with collapses): a
+                # restarted Davidson may stagnate from some starting vectors and says so loudly.  Under the fault an
+                # operation may fail honestly; it may never return a wrong answer (all other oracles stay on).
+                stats["probes"]["honest_nonconvergence_under_memory_fault"] = stats["probes"].get("honest_nonconvergence_under_memory_fault", 0) + 1
+            elif e["start"] != "fresh" and not any(o.get("exc") for o in out[:k] if o["start"] == "fresh"):
                 # the same request succeeds from a fresh start: the answer (here: success) depends on the carried state
                 failures.append(core.fail("fails-with-carried-amplitudes", f"{tag}: raised {e['exc']} although the fresh-start solve of this session succeeded"))
             continue
